@@ -1,2 +1,3 @@
 import FtModel.Basic
 import FtModel.Coiter
+import FtModel.Traffic
